@@ -165,6 +165,27 @@ func run(r *hx.Run) error {
 		res, _ := h.replayOp(strings.Fields(op))
 		r.Emit(op, res)
 	}
+	// a kill signal that arrives while the input goroutine is blocked posting to a full queue nobody
+	// receives from: it is served when the application receives again (decision: see notes/C10.md)
+	for i := 0; i < 2; i++ {
+		op := fmt.Sprintf("sigblocked seed=%d keys=%d", h.rng.Fork(uint64(9100+i)).Intn(1<<30), 1+2*i)
+		r.Case(fmt.Sprintf("sigblocked%d", i))
+		res, _ := h.replayOp(strings.Fields(op))
+		r.Emit(op, res)
+	}
+	// the API contract of Resume violated (witness, not judged): Resume after Close leaves a parser and an
+	// input goroutine that no Close will ever stop; a second Resume without a Suspend in between starts a
+	// second parser on the same console
+	contracts := []string{"CRC"}
+	if r.Thorough {
+		contracts = []string{"CRC", "RC", "SRRC"} // a double Resume may make the next Suspend/Close wait for the failure time-out
+	}
+	for i, ops := range contracts {
+		op := fmt.Sprintf("contract seed=%d ops=%s gate=0 keys=%d q=0", h.rng.Fork(uint64(9200+i)).Intn(1<<30), ops, i)
+		r.Case("contract-" + ops)
+		res, _ := h.replayOp(strings.Fields(op))
+		r.Emit(op, res)
+	}
 	// race-detector run of the same schedule kinds in a child process
 	for _, grp := range []string{"use", "dblclose", "sigsuspend"} {
 		r.Case("race-" + grp)
@@ -234,6 +255,20 @@ func (h *H) replayOp(f []string) (string, bool) {
 		}
 		res := forcedCase(kind, m["q"], m["keys"])
 		count("forced:" + kind + ":" + strings.Fields(res)[0])
+		return res, true
+	case "sigblocked":
+		res := sigBlockedCase(uint64(m["seed"]), m["keys"])
+		count("sigblocked:" + strings.Fields(res)[0])
+		return res, true
+	case "contract":
+		ops := ""
+		for _, x := range f[1:] {
+			if strings.HasPrefix(x, "ops=") {
+				ops = x[4:]
+			}
+		}
+		res := cyclesCase(uint64(m["seed"]), ops, m["gate"], m["keys"], m["q"], false)
+		count("contract:" + ops)
 		return res, true
 	case "lostkey":
 		res := lostKeyCase(uint64(m["seed"]), m["variant"])
@@ -1218,6 +1253,68 @@ func sigCloseCase(seed uint64, keys int) string {
 	}
 	leak := waitGoroutines(base, goneBound)
 	return fmt.Sprintf("%s leak=%d", res, leak)
+}
+
+// ---------- kill signal while the input goroutine is blocked in a post nobody receives ----------
+
+// sigBlockedCase: queue of capacity 1, full after New's Resize event, nobody receiving; `keys` keys make
+// the input goroutine block inside PostEventBlocking (definite: stack dump).  The kill signal is then
+// queued in chSigKill (capacity 1) and CANNOT be served: the goroutine is not in its select (definite:
+// a second delivery finds the channel still full).  Then the application receives: the goroutine gets
+// back to its select, takes the kill arm, Close completes (chQuit closed) and nothing is left.
+func sigBlockedCase(seed uint64, keys int) string {
+	base := goroutines()
+	vx, fc, err := newVx(1, 0)
+	if err != nil {
+		return "error new"
+	}
+	fc.InjectString(strings.Repeat("k", keys))
+	if !waitBlockedPosting(bound) {
+		withBound(vx.Close)
+		return "incomplete"
+	}
+	queued := vx.VerifC10SignalKill()
+	// still blocked in the post, signal still pending?
+	blocked := countIn(stackDump(), "(*Vaxis).openTty.func1", "(*Vaxis).PostEventBlocking") > 0
+	pending := !vx.VerifC10SignalKill()
+	quitBefore := false
+	select {
+	case <-vx.VerifC03QuitChan():
+		quitBefore = true
+	default:
+	}
+	// the application receives again
+	stop := make(chan struct{})
+	cdone := make(chan struct{})
+	go func() {
+		defer close(cdone)
+		for {
+			select {
+			case <-vx.Events():
+			case <-stop:
+				return
+			}
+		}
+	}()
+	res := "quit-ok"
+	select {
+	case <-vx.VerifC03QuitChan():
+	case <-time.After(bound):
+		res = "quit-hang"
+	}
+	close(stop)
+	select {
+	case <-cdone:
+	case <-time.After(bound):
+	}
+	leak := waitGoroutines(base, goneBound)
+	b2 := func(b bool) int {
+		if b {
+			return 1
+		}
+		return 0
+	}
+	return fmt.Sprintf("queued=%d blocked=%d pending=%d closed-before-receive=%d after-receive=%s leak=%d", b2(queued), b2(blocked), b2(pending), b2(quitBefore), res, leak)
 }
 
 // ---------- F33: concurrent Close ----------
